@@ -199,3 +199,66 @@ func errs(b bool) string {
 	}
 	return "no error"
 }
+
+// RunCompressed feeds the stream to the compressed importer (NewCompressImporter). The fields are then
+// interpreted as the compressed encoding (delta-encoded keys, version deltas): no prediction of the
+// error-ness exists, the totality clause alone is judged - no panic, no hang, nothing visible unless
+// Commit succeeded, and a committed store opens.
+func RunCompressed(s *Stream, fast bool) Result {
+	ch := make(chan Result, 1)
+	go func() {
+		defer func() {
+			if r := recover(); r != nil {
+				ch <- Result{Msg: fmt.Sprintf("panic in the compressed importer: %v\n%s", r, debug.Stack()), Panic: true}
+			}
+		}()
+		ch <- Result{Msg: runCompressed(s, fast)}
+	}()
+	select {
+	case r := <-ch:
+		return r
+	case <-time.After(20 * time.Second):
+		return Result{Msg: "the compressed importer did not return within 20s", Hang: true}
+	}
+}
+
+func runCompressed(s *Stream, fast bool) string {
+	db := dbm.NewMemDB()
+	tree := iavl.NewMutableTree(db, 100, !fast, logger)
+	if _, err := tree.Load(); err != nil {
+		return err.Error()
+	}
+	imp, err := tree.Import(s.IV)
+	if err != nil {
+		return err.Error()
+	}
+	ci := iavl.NewCompressImporter(imp)
+	committed := false
+	for _, c := range s.Calls {
+		switch c.Op {
+		case "add":
+			_ = ci.Add(&iavl.ExportNode{Key: sym(c.N.Key), Value: sym(c.N.Val), Version: c.N.Ver, Height: int8(c.N.H)})
+		case "commit":
+			committed = imp.Commit() == nil
+			if !committed {
+				imp.Close()
+			}
+		case "close":
+			imp.Close()
+		}
+	}
+	h := iavl.NewMutableTree(db, 0, true, logger)
+	v, err := h.Load()
+	if err != nil {
+		return "Load after the compressed import: " + err.Error()
+	}
+	if !committed && (v != 0 || len(h.AvailableVersions()) != 0) {
+		return fmt.Sprintf("compressed import without a successful Commit: version %d visible", v)
+	}
+	if committed {
+		if _, err := h.Iterate(func(k, v []byte) bool { return false }); err != nil {
+			return "Iterate over the tree imported through the compressed importer: " + err.Error()
+		}
+	}
+	return ""
+}
